@@ -34,11 +34,15 @@ AffineClause(c) ==
   ELSE WindingClause(c.v, c.t, c.M, c.tr, c.res.v, c.res.t)
 
 \* ---- mesh-to-precomputed -------------------------------------------------------
+\* every other key of the info file keeps its value (new keys are tolerated)
+RestKept(info) ==
+  \A i \in 1..Len(info.rest_before) :
+     \E j \in 1..Len(info.rest_after) : info.rest_after[j] = info.rest_before[i]
 Identity == <<<<1, 0, 0>>, <<0, 1, 0>>, <<0, 0, 1>>>>
 ToolClause(c) ==
   IF c.expect = "mismatch"
   THEN (IF c.rc # 0 /\ c.newfiles = << >> /\ c.info.mesh_after = c.info.mesh_before
-           /\ c.info.rest_after = c.info.rest_before
+           /\ RestKept(c.info)
         THEN "ok" ELSE "oracle:MeshDirMismatch")
   ELSE IF c.rc # 0 \/ c.exc # "" THEN "oracle:ToolFailed"
   ELSE LET dir == IF c.info.mesh_before # "" THEN c.info.mesh_before
@@ -46,7 +50,7 @@ ToolClause(c) ==
            M == IF c.hasxf THEN c.M ELSE Identity
            tr == IF c.hasxf THEN c.tr ELSE <<0, 0, 0>>
            o == ReadOutcome(c.b)
-       IN IF c.info.mesh_after # dir \/ c.info.rest_after # c.info.rest_before
+       IN IF c.info.mesh_after # dir \/ ~RestKept(c.info)
           THEN "oracle:InfoMeshKey"
           ELSE IF c.newfiles # <<dir \o "/" \o c.args.name>> THEN "oracle:MeshFileLocation"
           ELSE IF o.st # "ok" THEN "oracle:MeshFileReadable"
@@ -84,9 +88,12 @@ Spec == Init /\ [][Next]_vars
 \* the 5th field carries, for cases that hold a mesh file, which exit of the
 \* format oracle the bytes take (coverage accounting and finding signatures)
 ExitNames == <<"ShortHeader", "ShortVertices", "TriangleLength", "IndexOutOfRange", "Ok">>
+\* ... and for affine cases whether the signed-volume clause applied (1) or not (0)
 ExitIndex(c) ==
   IF c.mode \in {"read", "save"}
   THEN CHOOSE k \in 1..5 : ExitNames[k] = ReadOutcome(c.b).exit
+  ELSE IF c.mode = "affine"
+  THEN (IF DetM(c.M) # 0 /\ Closed(c.t) /\ CentredVolume6(c.v, c.t) # 0 THEN 1 ELSE 0)
   ELSE 0
 
 Emit == LET cl == Clause(Cases[tid]) IN
